@@ -219,6 +219,7 @@ var sampleTagSets = func() []tag.Set {
 	for _, m := range []map[string]string{
 		{}, {"a": "v"}, {"a": "1"}, {"a": "b"}, {"a": "v", "b": "1"}, {"name": "app1", "ip": "10"}, {"a": "x", "name": "abc"}, {"c.d": "v", "x:y": "1"},
 		{"a": "é"}, {"a": "a b"}, {"a": ""}, {"bb": "v", "a": "app1"}, {"a": "}"}, {"a": "x}y", "ip": "v"}, {"a": "x,y"}, {"a": "q\"t"}, {"a": " s "}, {"A": "v", "p/q-r": "5"},
+		{"a": "a  b"}, {"name": "a  b", "a": "x   y"}, {"a": " lead"}, {"a": "trail  ", "name": "x"}, {"a": "C:\\logs\\"}, {"name": "t\tb"}, {"a": "  "}, {"name": "a\\", "a": "v"}, {"name": "x   y"},
 		{"a": "raw"}, {"a": "ÿ"}, {"bb": "1", "c.d": "app1", "name": "v"}, {"a": "\n"}, {"a": "{"}, {"a": "\\"}, {"a": "\xff"}, {"a": "a=b"}, {"a": "x*"},
 	} {
 		r = append(r, tag.MapToSet(m))
@@ -228,8 +229,9 @@ var sampleTagSets = func() []tag.Set {
 
 var sampleEvents = func() []*model.LogEvent {
 	var r []*model.LogEvent
-	for i, m := range []string{"", "v", "abc", "x", "1", "a b", "é}", "app1 10", "}", "ABC x*", "\"", "5", "日本", "\xff"} {
-		fl, _ := field.NewFieldsFromKVString([]string{"", "f=v", "f=1,g=abc", "g=x", "f=\"a b\"", "x.y=5"}[i%6])
+	for i, m := range []string{"", "v", "abc", "x", "1", "a b", "é}", "app1 10", "}", "ABC x*", "\"", "5", "日本", "\xff",
+		"a  b", "x   y", " lead", "trail  ", "C:\\logs\\", "t\tb", "q\"t", "  ", "a\\", "x a  b x"} {
+		fl, _ := field.NewFieldsFromKVString([]string{"", "f=v", "f=1,g=abc", "g=x", "f=\"a b\"", "x.y=5", "f=\"a  b\"", "f=\"x   y\"", "f=\" lead\"", "f=\"trail  \"", "f=\"C:\\\\logs\\\\\"", "f=\"  \""}[i%12])
 		r = append(r, &model.LogEvent{Timestamp: []int64{0, 1, 5, 10, 1000, -1}[i%6], Msg: []byte(m), Fields: fl})
 	}
 	return r
@@ -772,7 +774,7 @@ func sectionParse(rng *vh.Rng) {
 
 func sectionRoundtrip(rng *vh.Rng) {
 	sec := res.Section("roundtrip", "spec-search",
-		"statements of every kind generated from the grammar (SELECT, SHOW, DESCRIBE, TRUNCATE, CREATE/DELETE PIPE; nesting 0..4; strings from a weighted alphabet with quotes, escapes, braces, non-ASCII and invalid bytes; identifiers with : . / -; numbers with size suffixes up to 2^64; date literals as integers and absolute dates, a tenth aimed at 10 ms multiples) plus as many mutants (junk insertion, deletions, swaps, duplicates, case flips): ParseLql → String() → ParseLql; the two ASTs must have the same meaning: truth values of every source condition on 27 sample tag sets and of every filter on 14 sample events (real evaluators on both sides), range, position, offset, limit, sizes, BEFORE, DRYRUN, names, statement kind. Each case is also compared with the model (AST, printed text, re-parse). non-trivial = accepted statement longer than 12 bytes, distinct by text")
+		"statements of every kind generated from the grammar (SELECT, SHOW, DESCRIBE, TRUNCATE, CREATE/DELETE PIPE; nesting 0..4; strings from a weighted alphabet with quotes, escapes, braces, non-ASCII and invalid bytes; identifiers with : . / -; numbers with size suffixes up to 2^64; date literals as integers and absolute dates, a tenth aimed at 10 ms multiples) plus as many mutants (junk insertion, deletions, swaps, duplicates, case flips): ParseLql → String() → ParseLql; the two ASTs must have the same meaning: truth values of every source condition on 36 sample tag sets and of every filter on 24 sample events (incl. values with runs of blanks, leading/trailing blanks, a trailing backslash) (real evaluators on both sides), range, position, offset, limit, sizes, BEFORE, DRYRUN, names, statement kind. Each case is also compared with the model (AST, printed text, re-parse). non-trivial = accepted statement longer than 12 bytes, distinct by text")
 	n := 30000
 	if args.Thorough {
 		n = 300000
@@ -965,7 +967,7 @@ func runPipeCases(sec *vh.Section, cs []pipeCase) {
 
 func sectionPipes(rng *vh.Rng) {
 	sec := res.Section("pipes", "system-correspondence",
-		"CREATE PIPE pA FROM S WHERE F through Admin.Execute (RPC) vs pipe.Service.CreatePipe{pB, S, F} on one in-process server, S from the source generator (tag sets and expressions, nesting 0..3), F from the filter generator: same acceptance; DESCRIBE PIPE pA shows the model's printed S and F; the stored conditions of pA select the same sample tag sets / events as S and F. A few cases also write events and compare what the two pipes copy. non-trivial = every case, distinct by (S, F)")
+		"CREATE PIPE pA FROM S WHERE F through Admin.Execute (RPC) vs pipe.Service.CreatePipe{pB, S, F} on one in-process server, S from the source generator (tag sets and expressions, nesting 0..3), F from the filter generator, a third of the cases boundary-directed (string values with runs of blanks, leading/trailing blanks, a trailing backslash followed by a further literal, tabs, quotes): same acceptance; DESCRIBE PIPE pA shows the model's printed S and F; the stored conditions of pA select the same sample tag sets / events as S and F. A few cases also write events and compare what the two pipes copy. non-trivial = every case, distinct by (S, F)")
 	n := 400
 	if args.Thorough {
 		n = 3000
@@ -978,6 +980,15 @@ func sectionPipes(rng *vh.Rng) {
 		}
 		if rng.Chance(1, 2) {
 			c.Where = expr(rng, true, rng.Range(0, 2))
+		}
+		if i%3 == 0 { // boundary-directed: delicate string values in S and / or F
+			c = pipeCase{}
+			if rng.Chance(2, 3) {
+				c.From = directedCond(rng, false)
+			}
+			if c.From == "" || rng.Bool() {
+				c.Where = directedCond(rng, true)
+			}
 		}
 		cs = append(cs, c)
 	}
@@ -994,8 +1005,8 @@ func behaviour(sec *vh.Section, rng *vh.Rng) {
 	if args.Thorough {
 		n = 12
 	}
-	conds := []string{"a=v", "{a=v}", "a=v or name like \"app*\"", "not a=v", "{a=v,b=1}", "a = \"x y\" OR b=1"}
-	partitions := []string{"a=v", "a=v,b=1", "name=app1", "a=x y", "b=1"}
+	conds := []string{"a=v", "{a=v}", "a=v or name like \"app*\"", "not a=v", "{a=v,b=1}", "a = \"x y\" OR b=1", "a = \"x  y\"", "a = \"x  y\" or b=1"}
+	partitions := []string{"a=v", "a=v,b=1", "name=app1", "a=x y", "b=1", "a=x  y"}
 	for i := 0; i < n; i++ {
 		s := conds[rng.Intn(len(conds))]
 		pipeSeq++
